@@ -26,6 +26,7 @@
 (*   pools   counterparty denom -> [lpt, esc]   (pool id = "pool-"+denom)  *)
 (*   bal     full balance sheet: users, pool escrows "esc-lpt-N",          *)
 (*           "module" (coinswap module account), "feepool"                 *)
+(*   blocked accounts that may not receive funds (sequence of names)          *)
 (*   supply  total supply per denom (offset so that it equals the sum of   *)
 (*           the tracked balances initially)                               *)
 (***************************************************************************)
@@ -42,7 +43,9 @@ vars == <<st, ev, gh, hist>>
 
 MOD == "module"           \* coinswap module account (mints / burns)
 FEEP == "feepool"         \* fee collector + distribution account
-Blocked == {FEEP}         \* addresses that may not receive funds
+(* accounts that may not receive funds (bank's blocked addresses; application
+   wiring, logged by the harness as st.blocked) *)
+BlockedOf(s) == {s.blocked[i] : i \in DOMAIN s.blocked}
 
 LptOf(n) == "lpt-" \o ToString(n)
 EscOf(lpt) == "esc-" \o lpt
@@ -308,7 +311,7 @@ IsDouble(s, inD, outD) == inD # s.std /\ outD # s.std
 DoSwap(s, who, to, inD, inAmt, outD, outAmt, isBuy, deadline) ==
   IF inAmt <= 0 \/ outAmt <= 0 \/ IsLpt(inD) \/ IsLpt(outD) \/ inD = outD THEN Fail(s, "validate")
   ELSE IF s.now > deadline THEN Fail(s, "deadline")
-  ELSE IF to \in Blocked THEN Fail(s, "blocked")
+  ELSE IF to \in BlockedOf(s) THEN Fail(s, "blocked")
   ELSE IF isBuy /\ IsDouble(s, inD, outD) THEN BuyDouble(s, who, to, inD, inAmt, outD, outAmt)
   ELSE IF isBuy THEN BuySingle(s, who, to, inD, inAmt, outD, outAmt)
   ELSE IF IsDouble(s, inD, outD) THEN SellDouble(s, who, to, inD, inAmt, outD, outAmt)
@@ -316,7 +319,7 @@ DoSwap(s, who, to, inD, inAmt, outD, outAmt, isBuy, deadline) ==
 
 (* Environment: a plain bank send to a pool escrow address (or any account) *)
 DoDonate(s, who, to, d, amt) ==
-  IF amt <= 0 \/ to \in Blocked \/ to \notin DOMAIN s.bal THEN Fail(s, "validate")
+  IF amt <= 0 \/ to \in BlockedOf(s) \/ to \notin DOMAIN s.bal THEN Fail(s, "validate")
   ELSE IF s.bal[who][d] < amt THEN Fail(s, "funds")
   ELSE Done([s EXCEPT !.bal = Move(s.bal, who, to, Coin(d, amt))], 0, EmptyF, "")
 
@@ -603,7 +606,7 @@ X02_RoundTripNoGain(s, e, t, g) ==
   => Legs(s, e, t)[1].recv <= g.last.paid
 (* blocked accounts receive nothing except the tax share of a creation fee *)
 X02_BlockedUntouched(s, e, t) ==
-  \A a \in Blocked \cap DOMAIN s.bal : \A d \in DOMAIN s.bal[a] :
+  \A a \in BlockedOf(s) \cap DOMAIN s.bal : \A d \in DOMAIN s.bal[a] :
     (Dl(s, t, a, d) # 0) =>
       /\ e.name = "AddLiquidity" /\ e.ok /\ Created(s, t) # {}
       /\ d = s.params.feeDenom /\ Dl(s, t, a, d) = TaxOf(s.params)
@@ -632,7 +635,7 @@ Accts == Users \cup Escs \cup {MOD, FEEP}
 Denoms == {Std} \cup Tokens \cup Lpts
 
 Init0 ==
-  [now |-> 1, seq |-> 1, std |-> Std,
+  [now |-> 1, seq |-> 1, std |-> Std, blocked |-> <<FEEP, MOD>>,
    params |-> [feeNum |-> FeeNum, feeDen |-> FeeDen, uniNum |-> UniNum, uniDen |-> UniDen,
                taxNum |-> TaxNum, taxDen |-> TaxDen, fee |-> CFee, feeDenom |-> Std],
    pools |-> EmptyF,
